@@ -114,6 +114,15 @@ Proof.
   rewrite nth_overflow by (rewrite map_length, seq_length; lia). reflexivity.
 Qed.
 
+(* a dynamic read with a defined index within 0..maxIdx is the static slice at offset idx*mul *)
+Theorem dyn_read_in_range_main : forall av iv k maxi mul w,
+  all_def iv = true -> bv_val iv = Some (N.of_nat k) -> k <= maxi ->
+  dyn_read av iv (maxi, mul, w) = extract_sem av (k * mul) w.
+Proof.
+  intros av iv k maxi mul w Hd Hv Hk. unfold dyn_read, mux_sem. rewrite Hd, Hv, Nat2N.id.
+  apply (nth_map_seq (fun k => extract_sem av (k * mul) w)). lia.
+Qed.
+
 (* on single-bit operands the BOOL logic of the scope bookkeeping is the vector logic *)
 Theorem scope_logic_is_node_logic_main : forall a b, length a = 1 -> length b = 1 ->
   cand a b = bv_and a b /\ cor a b = bv_or a b /\ cnot a = bv_not a.
